@@ -2054,7 +2054,7 @@ class Malformed(Family):
                 "C19_receiver_unchanged_karrange", "C19_rejects_mask", "C19_rejects_khatrirao", "C19_rejects_cp_als",
                 "C19_rejects_cp_apr", "C19_rejects_tucker_als", "C19_rejects_hosvd", "C19_rejects_gcp_opt",
                 "C19_rejects_import_data", "C19_rejects_from_aggregator_extents", "C19_rejects_sptensor_extents",
-                "C19_sptensor_empty_nonpositive_extent_counterexample", "C19_rejects_ttsv_multiplicand",
+                "C19_accepts_sptensor_extents", "C19_rejects_ttsv_multiplicand",
                 "C19_rejects_ttensor_components", "C19_rejects_ktensor_typed", "C19_rejects_subdims",
                 "C19_rejects_sp_assign", "C19_receiver_unchanged_sp_assign")
 
